@@ -1,4 +1,4 @@
-(* GENEQ lemma=gen_SW_init_eq requires=gen_SW_init_rs1,gen_SW_init_rs2,gen_SW_init_imm properties=C01,C02 *)
+(* GENEQ lemma=gen_SW_init_eq requires=gen_SW_init_rs1,gen_SW_init_rs2,gen_SW_init_imm properties=C01 *)
 From ArchSimGenEq Require Import GenEqTac.
 From ArchSim Require Import Model.RV Model.RVSplit.
 From ArchSimGen Require Import GenRVTypes GenRV.
